@@ -20,11 +20,21 @@
 
 /* ---- KeyAgg coefficient (tagged hash or 1): oracle for callers that only need "some scalar" ---- */
 #ifndef NO_KEYAGGCOEF_CONTRACT
+/* the real function may normalise *pk in place (it serialises it unless the coefficient is 1): same point, coordinates
+ * unchanged or canonical.  Proved on the real body by C12.keyaggcoef. */
+#ifndef VERIF_NATIVE
+static inline int fe_same_or_normalised(wide newv, wide oldv) { wide p = P_(); int i, hit = 0; for (i = 0; i < 10; i++) hit |= (oldv == newv + (wide)i * p); return newv == oldv || (newv < p && hit); }
+#define FVAL_OLD(f) (W(__CPROVER_old((f).n[0])) + (W(__CPROVER_old((f).n[1])) << 52) + (W(__CPROVER_old((f).n[2])) << 104) + (W(__CPROVER_old((f).n[3])) << 156) + (W(__CPROVER_old((f).n[4])) << 208))
+#define KC_PK_ENSURES __CPROVER_ensures(pk->infinity == __CPROVER_old(pk->infinity) && ge_ok(pk) && \
+    fe_same_or_normalised(fval(&pk->x), FVAL_OLD(pk->x)) && fe_same_or_normalised(fval(&pk->y), FVAL_OLD(pk->y)))
+#else
+#define KC_PK_ENSURES
+#endif
 #ifdef LOG_KEYAGGCOEF
 int g_kc_n; secp256k1_scalar g_kc_r0; secp256k1_ge g_kc_pk0; const secp256k1_keyagg_cache_internal *g_kc_cache0;
 #endif
 static void secp256k1_musig_keyaggcoef(const secp256k1_hash_ctx *hash_ctx, secp256k1_scalar *r, const secp256k1_keyagg_cache_internal *cache_i, secp256k1_ge *pk)
-__CPROVER_requires(__CPROVER_w_ok(r, sizeof(*r)) && __CPROVER_r_ok(cache_i, sizeof(*cache_i)) && __CPROVER_rw_ok(pk, sizeof(*pk)))
+__CPROVER_requires(__CPROVER_w_ok(r, sizeof(*r)) && __CPROVER_r_ok(cache_i, sizeof(*cache_i)) && __CPROVER_rw_ok(pk, sizeof(*pk)) && ge_ok(pk))
 #ifdef LOG_KEYAGGCOEF
 __CPROVER_assigns(*r, *pk, g_kc_n, g_kc_r0, g_kc_pk0, g_kc_cache0)
 __CPROVER_ensures(g_kc_n == __CPROVER_old(g_kc_n) + 1)
@@ -34,6 +44,18 @@ __CPROVER_ensures(__CPROVER_old(g_kc_n) != 0 ==> (SC_KEEP(g_kc_r0) && FE_KEEP(g_
 __CPROVER_assigns(*r, *pk)
 #endif
 __CPROVER_ensures(scalar_ok(r))
+KC_PK_ENSURES
+;
+#endif
+
+#ifdef LOG_KEYAGGCOEF_INTERNAL
+int g_kci_n; const unsigned char *g_kci_hash_p; const secp256k1_ge *g_kci_second_p; secp256k1_ge *g_kci_pk_p; secp256k1_scalar g_kci_r;
+static void secp256k1_musig_keyaggcoef_internal(const secp256k1_hash_ctx *hash_ctx, secp256k1_scalar *r, const unsigned char *pks_hash, secp256k1_ge *pk, const secp256k1_ge *second_pk)
+__CPROVER_requires(hash_ctx != NULL && __CPROVER_w_ok(r, sizeof(*r)) && __CPROVER_r_ok(pks_hash, 32) && __CPROVER_rw_ok(pk, sizeof(*pk)) && __CPROVER_r_ok(second_pk, sizeof(*second_pk)) && ge_ok(pk) && !pk->infinity)
+__CPROVER_assigns(*r, *pk, g_kci_n, g_kci_hash_p, g_kci_second_p, g_kci_pk_p, g_kci_r)
+__CPROVER_ensures(g_kci_n == __CPROVER_old(g_kci_n) + 1 && g_kci_hash_p == pks_hash && g_kci_second_p == second_pk && g_kci_pk_p == pk && SC_EQ(g_kci_r, *r))
+__CPROVER_ensures(scalar_ok(r))
+KC_PK_ENSURES
 ;
 #endif
 
@@ -63,10 +85,17 @@ __CPROVER_assigns(k[0], k[1])
 __CPROVER_ensures(scalar_ok(&k[0]) && scalar_ok(&k[1]))
 ;
 
-/* ---- batch Jacobian -> affine (len is 2 at every call site of these modules) ---- */
+/* ---- batch Jacobian -> affine (len is 2 at every call site of these modules); optional log of the last call ---- */
+#ifdef LOG_SET_ALL_GEJ
+int g_sa_n; secp256k1_gej g_sa_a0, g_sa_a1; secp256k1_ge g_sa_r0, g_sa_r1;
+#define SA_LOG __CPROVER_assigns(r[0], r[1], g_sa_n, g_sa_a0, g_sa_a1, g_sa_r0, g_sa_r1) \
+  __CPROVER_ensures(g_sa_n == __CPROVER_old(g_sa_n) + 1 && GEJ_EQ(g_sa_a0, a[0]) && GEJ_EQ(g_sa_a1, a[1]) && GE_EQ(g_sa_r0, r[0]) && GE_EQ(g_sa_r1, r[1]))
+#else
+#define SA_LOG __CPROVER_assigns(r[0], r[1])
+#endif
 #define SET_ALL_GEJ_CONTRACT \
 __CPROVER_requires(len == 2 && __CPROVER_w_ok(r, 2 * sizeof(*r)) && __CPROVER_r_ok(a, 2 * sizeof(*a)) && gej_ok(&a[0]) && gej_ok(&a[1])) \
-__CPROVER_assigns(r[0], r[1]) \
+SA_LOG \
 __CPROVER_ensures(ge_ok1(&r[0]) && ge_ok1(&r[1]) && r[0].infinity == a[0].infinity && r[1].infinity == a[1].infinity)
 static void secp256k1_ge_set_all_gej(secp256k1_ge *r, const secp256k1_gej *a, size_t len) SET_ALL_GEJ_CONTRACT;
 static void secp256k1_ge_set_all_gej_var(secp256k1_ge *r, const secp256k1_gej *a, size_t len) SET_ALL_GEJ_CONTRACT;
@@ -103,6 +132,37 @@ __CPROVER_ensures(__CPROVER_old(g_aj_n) != 0 ==> (GEJ_KEEP(g_aj_a0) && GEJ_KEEP(
 __CPROVER_assigns(*r)
 #endif
 __CPROVER_ensures(gej_ok(r))
+;
+
+/* ---- R1 + b*R2 (proved wiring: real body inside C12.nonce_process); summary with argument log for C12.partial_sig_verify ---- */
+#ifdef LOG_EFFECTIVE_NONCE
+int g_en_n; secp256k1_ge g_en_p0, g_en_p1; secp256k1_scalar g_en_b; secp256k1_gej g_en_r;
+#endif
+static void secp256k1_effective_nonce(secp256k1_gej *out_nonce, const secp256k1_ge *nonce_pts, const secp256k1_scalar *b)
+__CPROVER_requires(__CPROVER_w_ok(out_nonce, sizeof(*out_nonce)) && __CPROVER_r_ok(nonce_pts, 2 * sizeof(*nonce_pts)) && __CPROVER_r_ok(b, sizeof(*b)) && scalar_ok(b))
+#ifdef LOG_EFFECTIVE_NONCE
+__CPROVER_assigns(*out_nonce, g_en_n, g_en_p0, g_en_p1, g_en_b, g_en_r)
+__CPROVER_ensures(g_en_n == __CPROVER_old(g_en_n) + 1)
+__CPROVER_ensures(GE_EQ(g_en_p0, nonce_pts[0]) && GE_EQ(g_en_p1, nonce_pts[1]) && SC_EQ(g_en_b, *b) && GEJ_EQ(g_en_r, *out_nonce))
+#else
+__CPROVER_assigns(*out_nonce)
+#endif
+__CPROVER_ensures(gej_ok(out_nonce))
+;
+
+/* ---- multi-scalar multiplication with callback (KeyAgg sum): pure oracle; logs how it was invoked ---- */
+#ifdef LOG_ECMULT_MULTI
+int g_mm_n; size_t g_mm_count; const void *g_mm_cbdata; secp256k1_ecmult_multi_callback *g_mm_cb; const secp256k1_scalar *g_mm_gsc; secp256k1_gej g_mm_r; int g_mm_ret;
+#endif
+static int secp256k1_ecmult_multi_var(const secp256k1_callback* error_callback, secp256k1_scratch *scratch, secp256k1_gej *r, const secp256k1_scalar *inp_g_sc, secp256k1_ecmult_multi_callback cb, void *cbdata, size_t n)
+__CPROVER_requires(__CPROVER_w_ok(r, sizeof(*r)) && scratch == NULL)
+#ifdef LOG_ECMULT_MULTI
+__CPROVER_assigns(*r, g_mm_n, g_mm_count, g_mm_cbdata, g_mm_cb, g_mm_gsc, g_mm_r, g_mm_ret)
+__CPROVER_ensures(g_mm_n == __CPROVER_old(g_mm_n) + 1 && g_mm_count == n && g_mm_cbdata == cbdata && g_mm_cb == cb && g_mm_gsc == inp_g_sc && GEJ_EQ(g_mm_r, *r) && g_mm_ret == __CPROVER_return_value)
+#else
+__CPROVER_assigns(*r)
+#endif
+__CPROVER_ensures((__CPROVER_return_value == 0 || __CPROVER_return_value == 1) && gej_ok(r))
 ;
 
 /* ---- x -> point with square y ("is x on the curve" verdict): oracle with verdict log (two slots) ---- */
